@@ -328,7 +328,7 @@ func c11Run(units []c11Unit, layout jg.Layout) engine.Result {
 }
 
 // full product over evidence sequences of the first test method
-func c11GenSeq(c *engine.C) engine.Case { return c11GenSeqN(c, 4, 5) }
+func c11GenSeq(c *engine.C) engine.Case { return c11GenSeqN(c, 4, 4) } // 20 tokens: length 5 (3.2 M cases) does not fit the thorough budget
 
 // c11GenSeqLong: longer sequences, explored within a deviation bound instead of as a full product.
 func c11GenSeqLong(c *engine.C) engine.Case { return c11GenSeqN(c, 7, 7) }
@@ -442,7 +442,7 @@ func init() {
 	engine.Register(&engine.Spec{
 		ID:    "C11",
 		Title: "Test-smell findings are exactly those evidenced in the test sources",
-		Rule: "X1: (a) full product of evidence sequences of length <=4 (quick) / <=5 (thorough), and all sequences of length <=7 within 2/3 deviations from the default token, over 20 evidence tokens (assertTrue, assertNotNull(new Foo()), Thread.sleep(5, 5), printf with identical arguments, assertEquals(a,b), assertEquals(a,a), println, printf, print, Thread.sleep, helper that asserts, helper that does not, verify, new, non-assert call with identical arguments) in one @Test method; " +
+		Rule: "X1: (a) full product of evidence sequences of length <=4 (both tiers), and all sequences of length <=7 within 2/3 deviations from the default token, over 20 evidence tokens (assertTrue, assertNotNull(new Foo()), Thread.sleep(5, 5), printf with identical arguments, assertEquals(a,b), assertEquals(a,a), println, printf, print, Thread.sleep, helper that asserts, helper that does not, verify, new, non-assert call with identical arguments) in one @Test method; " +
 			"(b) deviation-bounded trees of 1..2 classes (location: *Test.java, *Tests.java, src/test/java, production) x 1..3 methods x annotation combination (@Test, @Ignore, both in either order, none, @Before) x bodies x assertion multiplicity 4/5/6 x 12 layouts. " +
 			"Non-trivial = at least one finding is required. Distinct = distinct source trees.",
 		Assumptions: []string{
